@@ -26,6 +26,64 @@ fn all_strings(alphabet: &[char], max_len: usize) -> Vec<String> {
 
 pub fn gen_c01(out: &mut dyn Write, thorough: bool, seed: u64) {
     let mut r = Rng::new(seed);
+    // cancelling entries: a longer entry whose weights are exactly the negated weights of the entry it ends with, so that the
+    // two sum to zero wherever the longer one occurs (an entry with all-zero *merged* weights is not a no-op: the automaton
+    // reports only the longest entry per end position, and that entry stands for all of its suffixes)
+    for k in 0..(if thorough { 200 } else { 40 }) {
+        let w = 1 + (k % 4) as u8;          // windows 1..4 (type window 4: the automaton scorer, not the cache)
+        let alpha = [['都', '京', '東', 'に'], ['a', 'b', '1', ' '], ['𠮷', 'あ', 'カ', 'z']][k % 3];
+        let short: String = alpha[..1 + r.below(2.min(2 * w as usize - 1).max(1))].iter().collect();
+        let long: String = format!("{}{}", alpha[3 - r.below(2)], short);
+        let (ls, ll) = (short.chars().count(), long.chars().count());
+        let mut m = AbsModel { char_w: w, type_w: w, bias: r.range(-3, 3) as i32, ..Default::default() };
+        match k % 3 {
+            0 => {
+                // dictionary words: weights are aligned at the END of the word
+                let ws: Vec<i32> = (0..=ls).map(|_| r.range(1, 9) as i32).collect();
+                let mut wl = vec![0i32; ll + 1];
+                for (i, x) in ws.iter().enumerate() {
+                    wl[ll - ls + i] = -x;
+                }
+                m.dict.push((short.clone(), ws, String::new()));
+                m.dict.push((long.clone(), wl, String::new()));
+                m.dict.push((alpha[2].to_string(), vec![3, -4], String::new()));
+            }
+            1 if ll <= 2 * w as usize => {
+                // character n-grams: weight vectors are aligned at their START; the shorter one covers more positions
+                let n_s = 2 * w as usize - ls + 1;
+                let n_l = 2 * w as usize - ll + 1;
+                let mut ws: Vec<i32> = (0..n_s).map(|_| r.range(1, 9) as i32).collect();
+                for x in ws.iter_mut().skip(n_l) {
+                    *x = 0;
+                }
+                let wl: Vec<i32> = ws[..n_l].iter().map(|x| -x).collect();
+                m.char_ngrams.push((short.clone(), ws));
+                m.char_ngrams.push((long.clone(), wl));
+                m.char_ngrams.push((alpha[2].to_string(), (0..2 * w as usize).map(|i| i as i32 - 1).collect()));
+            }
+            2 if ll <= 2 * w as usize => {
+                let ty = |s: &str| -> Vec<u8> { s.chars().map(|c| vaporetto::CharacterType::get_type(c) as u8).collect() };
+                let (ts, tl) = (ty(&short), ty(&long));
+                if tl.ends_with(&ts) && tl != ts {
+                    let n_s = 2 * w as usize - ls + 1;
+                    let n_l = 2 * w as usize - ll + 1;
+                    let mut ws: Vec<i32> = (0..n_s).map(|_| r.range(1, 9) as i32).collect();
+                    for x in ws.iter_mut().skip(n_l) {
+                        *x = 0;
+                    }
+                    let wl: Vec<i32> = ws[..n_l].iter().map(|x| -x).collect();
+                    m.type_ngrams.push((ts, ws));
+                    m.type_ngrams.push((tl, wl));
+                }
+                m.char_ngrams.push((alpha[2].to_string(), (0..2 * w as usize).map(|i| i as i32 - 1).collect()));
+            }
+            _ => continue,
+        }
+        let mt = m.to_text();
+        for t in [format!("{}{long}{}", alpha[2], alpha[3]), format!("{long}{short}{long}"), format!("{short}{}{long}", alpha[2])] {
+            writeln!(out, "H {CFG} {mt}^00 Fraw:{},pred:0,obs:SB,spec:0 c01", hexs(&t)).unwrap();
+        }
+    }
     // exhaustive small scope: W in {1,2}; <=2 character n-grams out of the 6 strings of length 1..2 over {a,1};
     // one optional word; type n-grams from the same shape; weights cycling through {-1,0,2}; all texts of length <= 4
     let grams = all_strings(&['a', '1'], 2);
@@ -162,7 +220,7 @@ pub fn gen_c08(out: &mut dyn Write, thorough: bool, seed: u64) {
     let opts = GenOpts { windows: &[1, 2, 3, 4, 9], max_ngrams: 5, max_words: 3, max_word_len: 4 };
     let n_groups = if thorough { 4000 } else { 150 };
     let per_group = if thorough { 12 } else { 8 };
-    for _ in 0..n_groups {
+    for group_no in 0..n_groups {
         // five predictors: A tags+scores, B another model without tag prediction, C tags without scores, D tag prediction on a model without tag models, E see below
         let (mut m1, alpha) = gen_model(&mut r, &opts);
         gen_tag_models(&mut r, &mut m1, &alpha, 3);
@@ -187,6 +245,39 @@ pub fn gen_c08(out: &mut dyn Write, thorough: bool, seed: u64) {
         for (a, b) in [(0, 4), (4, 0), (2, 4), (4, 3)] {
             let x = gen_text_tags(&mut r, &m1, &alpha, 12);
             writeln!(out, "H {CFG} {} raw:{},pred:{a},pred:{b},fill,obs c08", specs.join("!"), hexs(&x)).unwrap();
+        }
+        // long reuse: one sentence object predicted hundreds of times (a long text, then n short ones, then another long
+        // one that is tagged) — counters, epochs and caches inside the sentence must not wrap or leak (n around 2^8; 2^16 in
+        // the thorough tier)
+        if group_no < (if thorough { 24 } else { 6 }) {
+            let mut counts = vec![254usize, 255, 255, 255, 255, 255, 255, 256, 257];
+            if thorough && group_no == 0 {
+                counts.extend([65535, 65536]);
+            }
+            for n in counts {
+                let long1 = gen_text_tags(&mut r, &m1, &alpha, 14);
+                // the second long text: either unrelated, or the first one with one character replaced by a character no
+                // pattern contains (whatever was recorded for that position must not survive)
+                let long2 = if r.chance(1, 4) || long1.chars().count() < 5 {
+                    gen_text_tags(&mut r, &m1, &alpha, 14)
+                } else {
+                    let n1 = long1.chars().count();
+                    let at = r.range(3, n1 as i64 - 1) as usize;
+                    long1.chars().enumerate().map(|(i, c)| if i == at { '〓' } else { c }).collect()
+                };
+                let k = *r.pick(&[0usize, 2, 4]);
+                let mut ops = vec![format!("raw:{}", hexs(&long1)), format!("pred:{k}")];
+                for i in 0..n {
+                    let short: String = gen_text_tags(&mut r, &m1, &alpha, 3).chars().take(1 + i % 3).collect();
+                    ops.push(format!("raw:{}", hexs(&short)));
+                    ops.push(format!("pred:{k}"));
+                }
+                ops.push(format!("raw:{}", hexs(&long2)));
+                ops.push(format!("pred:{k}"));
+                ops.push("fill".into());
+                ops.push("obs".into());
+                writeln!(out, "H {CFG} {} {} c08", specs.join("!"), ops.join(",")).unwrap();
+            }
         }
         for _ in 0..per_group {
             let mut s = vaporetto::Sentence::default();
